@@ -50,9 +50,9 @@ CLAIMS = {
          "quinn stable-id uniqueness among live connections is assumed."),
  "C05": ("Coq theorems: both ends' tie-break decisions agree for every pair of distinct identities and every arrival order; a finite transition system of the two handshakes, "
          "registrations, failures and close notifications (using exactly the code's tie-break, proved to refine ActivePeers.step) whose reachable set is computed and checked "
-         "inside Coq: the survivor is never closed, every maximal schedule terminates (<= 8 steps) with both ends holding the connection dialed by the greater identity; tied by "
+         "inside Coq: the survivor is never closed, every maximal schedule terminates (<= 8 steps) with both ends holding the connection dialed by the greater identity; the same system extended by inbound admission (MutualDialLimit.v: a connection limit of 1 at either node, filled by this very pair) still ends with both ends holding one and the same connection in every schedule, the possible survivors per placement are tabulated, and checking the limit once more after the handshake is refuted by a witness schedule; tied by "
          "an exhaustive tie-break comparison, by replaying every maximal schedule on two real ActivePeers sets with real connections, and by simultaneous dials of whole networks "
-         "over the fabric under seeded delay/jitter.",
+         "over the fabric under seeded delay/jitter (a quarter of them with such a limit: the implementation's survivor must be one the model allows).",
          "close propagation and handshake completion are quinn's (model steps Notice/Fail/Ready)."),
  "C13": ("Coq theorems about handle_connectivity_check and DialBackoffState for every known-peer table, configuration and result history: only eligible peers are dialed "
          "(High, not self, has address, not connected, not already pending, backoff expired), one pending dial per peer, the outstanding-connection cap, every eligible peer "
